@@ -137,8 +137,12 @@ func genC19(g *Gen) {
 		}
 		n := 1 + r.Intn(6)
 		args := make([]string, n)
+		listRoot := r.P(1, 6) // every key starts with an index: what is collected has a list at its root and no name
 		for j := range args {
 			key := c19Keys[r.Intn(len(c19Keys))]
+			if listRoot {
+				key = []string{"0", "1", "0.name", "0.port", "1.name", "2", "0.l"}[r.Intn(7)]
+			}
 			switch k := r.Intn(12); {
 			case k == 0:
 				args[j] = key // bare key
@@ -153,7 +157,7 @@ func genC19(g *Gen) {
 			}
 		}
 		var init map[string]interface{}
-		if r.P(1, 4) {
+		if r.P(1, 4) && !listRoot {
 			init = map[string]interface{}{"a": map[string]interface{}{"l": []interface{}{"i0", "i1"}}, "l": []interface{}{uint64(5)}}
 		}
 		if c, ok := c19Run(o, r.P(5, 6), init, args); ok {
